@@ -110,6 +110,13 @@ def corpus():
         _game("chsh-float-pred", chsh_p, chsh_f, "float", reps=2, calls=("q", "c", "conv", "c2")),
         _game("chsh-bool-pred", chsh_p, chsh_f, "bool", reps=3, calls=("q", "c", "conv")),
         _game("chsh-tol", chsh_p, [[1, 0], [0, 0]], tol=1e-6),
+        # a generous tolerance that exceeds several probability entries: `tol` is a tolerance on the VALUE / on the normalisation of
+        # the distribution, never a cutoff on individual question pairs
+        _game("small-entries-large-tol", [[1 / 64, 1 / 64, 1 / 64, 13 / 64], [1 / 64, 1 / 64, 13 / 64, 1 / 64], [1 / 64, 13 / 64, 1 / 64, 1 / 64],
+                                          [13 / 64, 1 / 64, 1 / 64, 1 / 64]], [[0, 1, 1, 0], [1, 0, 0, 1], [0, 0, 1, 1], [1, 1, 0, 0]], tol=2e-2,
+              calls=("q", "c", "conv")),
+        _game("uniform-4x4-tol-above-entries", (np.ones((4, 4)) / 16).tolist(), [[0, 0, 0, 0], [0, 1, 0, 1], [0, 0, 1, 1], [0, 1, 1, 0]], tol=7e-2,
+              calls=("q", "c")),
         _game("biased-chsh", [[0.5, 0.125], [0.125, 0.25]], chsh_f, reps=2, calls=("q", "c", "conv", "npa", "c2")),
         _game("rect-2x3", [[0.125, 0.25, 0.125], [0.25, 0.125, 0.125]], [[0, 0, 1], [0, 1, 0]]),
         _game("rect-3x2", [[0.125, 0.25], [0.125, 0.25], [0.125, 0.125]], [[0, 0], [0, 1], [1, 0]]),
